@@ -47,3 +47,29 @@ def compare_with_reference(stmts, shell, dump, which):
     return {'which': which, 'witness': [refsem.sym_str(s) for s in seq],
             'accepted_by': 'reference only' if ref_accepts else 'complgen only',
             'ref_states': ref[0], 'impl_states': last[0]}
+
+
+def permuted_pairs_grammar(r, npairs=None):
+    """Many pairs of within-word expressions over the same items in a different order and with the same
+    skeleton: `(u)@(h) x | (h)@(u) y`.  Each pair is a chance for two nested automata to be confused."""
+    n = npairs or r.randint(8, 40)
+    branches = []
+    for i in range(n):
+        u, h = gast.lit('u%d' % i), gast.lit('h%d' % i)
+        sep = gast.lit(r.choice(['@', ':', '=']))
+        kind = r.random()
+        if kind < 0.5:
+            a = ('word', (u, sep, h))
+            b = ('word', (h, sep, u))
+        elif kind < 0.8:
+            a = ('word', (gast.alt(u, gast.lit('p%d' % i)), sep, h))
+            b = ('word', (gast.alt(h, gast.lit('p%d' % i)), sep, u)) if r.random() < 0.5 else ('word', (h, sep, gast.alt(u, gast.lit('p%d' % i))))
+        else:
+            # nested juxtaposition of two literals would be rejected (parse-time flattening), so the optional part
+            # is separator + alternation
+            a = ('word', (u, gast.opt(('word', (sep, gast.alt(h, gast.lit('q%d' % i)))))))
+            b = ('word', (h, gast.opt(('word', (sep, gast.alt(u, gast.lit('q%d' % i)))))))
+        branches.append(gast.seq(a, gast.lit('x%d' % i)))
+        branches.append(gast.seq(b, gast.lit('y%d' % i)))
+    r.shuffle(branches)
+    return [gast.call('cmd', gast.alt(*branches))]
